@@ -202,3 +202,118 @@ def delete_requests(rnd):
             if sy in gone:
                 return f"requests {desc}: {dn} still names the deleted symbol {sy.name}"
     return None
+
+
+# ------------------------------------------------------------------------------------ C01 on every fixed- and variable-width ISA
+LISTING_ISAS = {
+    # nop, body instruction, terminators (bytes, symbolic operand offset or None, edges), marker patches (text, bytes)
+    "X64": dict(nop=b"\x90", body=b"\x90", call=(b"\xe8\0\0\0\0", 1), jmp=(b"\xe9\0\0\0\0", 1), jcc=(b"\x0f\x85\0\0\0\0", 2), ret=b"\xc3",
+                marks=[("push %rax", b"\x50"), ("push %rcx", b"\x51"), ("push %rdx", b"\x52"), ("push %rbx\npush %rbx", b"\x53\x53")], big=False),
+    "ARM64": dict(nop=b"\x1f\x20\x03\xd5", body=b"\x1f\x20\x03\xd5", call=(b"\x00\x00\x00\x94", 0), jmp=(b"\x00\x00\x00\x14", 0), jcc=(b"\x01\x00\x00\x54", 0),
+                  ret=b"\xc0\x03\x5f\xd6", marks=[("mov x1, x1", b"\xe1\x03\x01\xaa"), ("mov x2, x2", b"\xe2\x03\x02\xaa"), ("mov x3, x3", b"\xe3\x03\x03\xaa"),
+                                                     ("mov x4, x4\nmov x4, x4", b"\xe4\x03\x04\xaa" * 2)], big=False),
+    "MIPS32": dict(nop=b"\0\0\0\0", body=b"\0\0\0\0", call=None, jmp=None, jcc=None, ret=None,
+                   marks=[("move $9, $9", b"\x01\x20\x48\x25"), ("move $10, $10", b"\x01\x40\x50\x25"), ("move $11, $11", b"\x01\x60\x58\x25"),
+                          ("move $12, $12\nmove $12, $12", b"\x01\x80\x60\x25" * 2)], big=True),
+}
+
+
+def scoped_listing(rnd):
+    """A module of 2-4 code blocks (x86-64, AArch64, MIPS32), some with alignment requirements; 1-4 registrations: insert_at at an
+    instruction boundary, SingleBlockScope / AllBlocksScope at ENTRY or EXIT.  The text section afterwards must be the listing edit
+    -- ENTRY at offset 0, EXIT in front of the instruction that ends a block with a control transfer, several patches at one place in
+    registration order -- plus whole nops in front of a block with an alignment entry.  Returns a violation text or None."""
+    import gtirb_rewriting
+    from gtirb_rewriting import AllBlocksScope, BlockPosition, SingleBlockScope
+    from gtirb_test_helpers import add_code_block, add_edge, add_proxy_block, add_symbol, add_text_section, create_test_module
+    from helpers import literal_patch
+    isa = rnd.choice(["X64", "X64", "ARM64", "ARM64", "MIPS32"])
+    T = LISTING_ISAS[isa]
+    ir, m = create_test_module(gtirb.Module.FileFormat.ELF, getattr(gtirb.Module.ISA, isa))
+    if T["big"]:
+        m.byte_order = gtirb.Module.ByteOrder.Big
+    _, bi = add_text_section(m, address=0x1000)
+    ext = add_proxy_block(m)
+    extsym = add_symbol(m, "ext", ext)
+    nb = rnd.randint(2, 4)
+    kinds = [rnd.choice(["fall", "call", "jmp", "jcc", "ret"] if T["ret"] else ["fall"]) for _ in range(nb)]
+    if T["ret"]:
+        kinds[-1] = rnd.choice(["ret", "jmp"])
+    blocks, insns = [], []
+    for k, kind in enumerate(kinds):
+        sizes = [len(T["body"])] * rnd.randint(1, 3)
+        data, se = T["body"] * len(sizes), {}
+        if kind in ("call", "jmp", "jcc"):
+            enc, eo = T[kind]
+            se[(len(data) + eo, 4)] = gtirb.SymAddrConst(0, extsym)
+            data += enc
+            sizes.append(len(enc))
+        elif kind == "ret":
+            data += T["ret"]
+            sizes.append(len(T["ret"]))
+        b = add_code_block(bi, data, se)
+        add_symbol(m, f"b{k}", b)
+        blocks.append(b)
+        insns.append(sizes)
+    for k, kind in enumerate(kinds):
+        nxt = blocks[k + 1] if k + 1 < nb else None
+        if kind in ("fall", "call", "jcc") and nxt is not None:
+            add_edge(ir.cfg, blocks[k], nxt, gtirb.Edge.Type.Fallthrough)
+        if kind == "call":
+            add_edge(ir.cfg, blocks[k], ext, gtirb.Edge.Type.Call)
+        elif kind in ("jmp", "jcc"):
+            add_edge(ir.cfg, blocks[k], ext, gtirb.Edge.Type.Branch, conditional=(kind == "jcc"))
+        elif kind == "ret":
+            add_edge(ir.cfg, blocks[k], add_proxy_block(m), gtirb.Edge.Type.Return)
+    align = {}
+    for k in range(1, nb):
+        if rnd.random() < 0.4:
+            align[k] = rnd.choice([8, 16])
+            m.aux_data["alignment"].data[blocks[k]] = align[k]
+    original = [bytes(b.contents) for b in blocks]
+    # only alignment requirements that hold in the input make sense: pad the input?  No: an entry that does not hold yet is a
+    # requirement all the same -- the rewrite has to establish it.
+    ctx = gtirb_rewriting.RewritingContext(m, [])
+    plan = {k: [] for k in range(nb)}          # block -> [(offset, registration number, bytes)]
+    desc = []
+    for reg in range(rnd.randint(1, 4)):
+        text, code = rnd.choice(T["marks"])
+        how = rnd.choice(["at", "single", "all"])
+        term = lambda k: kinds[k] in ("call", "jmp", "jcc", "ret")     # noqa
+        exit_off = lambda k: sum(insns[k][:-1]) if term(k) else sum(insns[k])   # noqa
+        if how == "at":
+            k = rnd.randrange(nb)
+            off = sum(insns[k][:rnd.randint(0, len(insns[k]))])
+            ctx.insert_at(blocks[k], off, literal_patch(text))
+            plan[k].append((off, reg, code))
+            desc.append(f"insert_at(b{k}, {off})")
+        else:
+            pos = rnd.choice(["ENTRY", "EXIT"])
+            ks = [rnd.randrange(nb)] if how == "single" else list(range(nb))
+            scope = SingleBlockScope(blocks[ks[0]], getattr(BlockPosition, pos)) if how == "single" else AllBlocksScope(getattr(BlockPosition, pos))
+            ctx.register_insert(scope, literal_patch(text))
+            for k in ks:
+                plan[k].append((0 if pos == "ENTRY" else exit_off(k), reg, code))
+            desc.append(f"register_insert({'SingleBlockScope(b%d' % ks[0] if how == 'single' else 'AllBlocksScope('}{', ' if how == 'single' else ''}{pos}))")
+    try:
+        ctx.apply()
+    except Exception as e:    # noqa
+        return f"{isa}: blocks {kinds}, {desc}: apply raises {type(e).__name__}: {str(e)[:100]}"
+    want = b""
+    for k in range(nb):
+        edited, cur = b"", 0
+        for off, _, code in sorted(plan[k]):
+            edited += original[k][cur:off] + code
+            cur = off
+        edited += original[k][cur:]
+        if k in align:
+            pad = (-(0x1000 + len(want))) % align[k]
+            if pad % len(T["nop"]):
+                return None          # (cannot happen with these sizes on the fixed-width ISAs)
+            want += T["nop"] * (pad // len(T["nop"]))
+        want += edited
+    got = b"".join(bytes(x.contents) for x in sorted(m.byte_intervals, key=lambda x: x.address or 0) if x.section.name == ".text")
+    if got != want:
+        return (f"{isa}: blocks {[(kd, len(o)) for kd, o in zip(kinds, original)]}, alignment {align}, registrations {desc}: the text section is "
+                f"{got.hex()}, the listing edit with nop padding is {want.hex()}")
+    return None
